@@ -683,3 +683,54 @@ theorem centre_rect (h k dx dy : α) :
 
 end extract
 end Cherab.Admt
+
+/-! ### proof-deepening pass: the rows of every boundary class on quadratics; linearity in the vector -/
+namespace Cherab.Admt
+open Cherab.Gen.Admt
+
+/-- +1 in the first column, −1 in the last, 0 elsewhere: sign of the one-sided `x` difference -/
+def Cls.sx (c : Cls) : Int := if c.l then 1 else if c.r then -1 else 0
+/-- −1 in the top row, +1 in the bottom row (`y` decreases with `iy`) -/
+def Cls.sy (c : Cls) : Int := if c.t then -1 else if c.b then 1 else 0
+
+/-- all second-order moments of the first- and second-derivative rows, for every boundary class -/
+structure BoundaryFacts (c : Cls) (t : Table) : Prop where
+  dx : moms t .Dx = [0, 4, 0, 4 * c.sx, 0, 0]
+  dy : moms t .Dy = [0, 0, -4, 0, 0, 4 * c.sy]
+  dxx : moms t .Dxx = if c.sx = 0 then [0, 0, 0, 8, 0, 0] else [0, 4, 0, 4 * c.sx, 0, 0]
+  dyy : moms t .Dyy = if c.sy = 0 then [0, 0, 0, 0, 0, 8] else [0, 0, -4, 0, 0, 4 * c.sy]
+
+instance (c : Cls) (t : Table) : Decidable (BoundaryFacts c t) :=
+  decidable_of_iff
+    (moms t .Dx = [0, 4, 0, 4 * c.sx, 0, 0] ∧ moms t .Dy = [0, 0, -4, 0, 0, 4 * c.sy]
+      ∧ moms t .Dxx = (if c.sx = 0 then [0, 0, 0, 8, 0, 0] else [0, 4, 0, 4 * c.sx, 0, 0])
+      ∧ moms t .Dyy = (if c.sy = 0 then [0, 0, 0, 0, 0, 8] else [0, 0, -4, 0, 0, 4 * c.sy]))
+    ⟨fun ⟨a, b, c', d⟩ => ⟨a, b, c', d⟩, fun ⟨a, b, c', d⟩ => ⟨a, b, c', d⟩⟩
+
+def boundaryB (c : Cls) : Bool :=
+  match stencil c with
+  | some t => decide (BoundaryFacts c t)
+  | none => false
+
+/-- evaluated by the kernel on the generated program, all nine boundary classes -/
+theorem boundaryB_all : ∀ c ∈ allCls, c.valid = true → boundaryB c = true := by decide
+
+theorem boundary_facts (c : Cls) (hv : c.valid = true) (t : Table) (ht : stencil c = some t) :
+    BoundaryFacts c t := by
+  have h := boundaryB_all c (mem_allCls c) hv
+  unfold boundaryB at h
+  rw [ht] at h
+  exact of_decide_eq_true h
+
+section
+variable {α : Type} [Field α]
+
+theorem dotN_smul (n : Nat) (row v : Nat → α) (c : α) :
+    dotN n row (fun k => c * v k) = c * dotN n row v := by
+  simp only [dotN_eq_sum]
+  induction List.range n with
+  | nil => simp
+  | cons x xs ih => simp only [List.map, List.sum_cons, ih]; ring
+
+end
+end Cherab.Admt
